@@ -9,6 +9,7 @@ import pvtools
 FAMILIES = ['solver', 'mixture']
 BRIDGES = ['br_flux_', 'br_solve_', 'br_solver_cap', 'br_pp_']
 PROPS_V = 'Props/C02.v'
+EXTRA_TARGETS = ['Model/NumCheck.vo']
 BUDGET = {'quick': 500, 'thorough': 12000}
 ORACLE_RULE = ('built-in + synthetic mixtures x {NRTL, UNIQUAC} x {vacuum, permeate temperature 120 K..T (30% within 30 K of T), permeate '
                'pressure 0..100 kPa, pressure exactly 0} x permeances 1e-6..1 x feed fraction in (0,1) (either basis) x T 273..400 K x precision '
@@ -118,6 +119,14 @@ def oracle(rng, tier):
         prev = s
         kind, ok, detail = check_state(s, rng)
         yield {'kind': kind, 'case': pvtools.describe_state(s), 'ok': ok, 'detail': detail, 'nontrivial': kind not in ('raised', 'nonfinite')}
+
+
+def correspondence(tier, seed):
+    import corr_numeric
+    budget = {'solver': 40, 'thermo': 10}
+    if tier == 'thorough':
+        budget = {k: v * 12 for k, v in budget.items()}
+    return corr_numeric.run(seed, budget, nmax=30 if tier == 'quick' else 200, tag='C02')
 
 
 def replay(rep):
